@@ -1389,9 +1389,7 @@ def r_block_mgr(e, R):
     n_sites = 0
     for q in a.manager_funcs:
         f = e.prog.funcs[q]
-        if not manager_only(e, q) and q not in ("loky.backend.utils:kill_process_tree",
-                                                 "loky.backend.utils:_kill_process_tree_with_psutil",
-                                                 "loky.backend.utils:_kill_process_tree_without_psutil"):
+        if not manager_only(e, q) and q not in _kill_tree_quals(e):
             # functions shared with other roles are checked in their own rules
             if "MANAGER" not in a.roles_of(q):
                 continue
@@ -1500,14 +1498,32 @@ def _enclosing_loop(e, node):
     return p
 
 
+def _kill_tree_quals(e):
+    from .broken import kill_tree_roles, KILL_TREE
+    fp, fw, fr = kill_tree_roles(e)
+    return {KILL_TREE, fp.qualname, fw.qualname}
+
+
+def _kill_helper_quals(e):
+    """Helpers of the fallback implementation that send a kill: everything reachable from it that calls os.kill / taskkill."""
+    from .broken import kill_tree_roles
+    fp, fw, fr = kill_tree_roles(e)
+    out = set()
+    for q in e.reach([fw.qualname]):
+        f_ = e.prog.funcs.get(q)
+        if f_ is not None and q != fw.qualname and any(isinstance(x, ast.Call) and (norm(x.func) == "os.kill" or "taskkill" in norm(x) or q in e.callees_of(x))
+                                                        for x in func_nodes(f_)):
+            out.add(q)
+    return out
+
+
 def _join_enabled(e, f, c, nodes):
     a = e.anchors
     g = e.cfg(f)
     rel = effect_nodes(e, f, recv_call(e, "release", a.exit_locks))
     kill = effect_nodes(e, f, lambda fn, call: isinstance(call.func, ast.Attribute) and call.func.attr in ("kill",)
                         or isinstance(call.func, (ast.Name, ast.Attribute)) and
-                        (call.func.id if isinstance(call.func, ast.Name) else call.func.attr) in
-                        ("_posix_recursive_kill", "_windows_taskkill_process_tree", "_kill"))
+                        bool(e.callees_of(call) & _kill_helper_quals(e)))
     # same-function: a release / kill dominating the join
     if nodes and all(any(g.dominates(x, n) and x is not n for x in rel) for n in nodes):
         return True, "after the exit-lock release"
